@@ -515,7 +515,7 @@ pub fn gen_c18(rng: &mut Rng, i: u64, tier: Tier) -> Script {
                     s.set("next_corrupt", 1);
                 }
                 2 => {
-                    let cfg = crate::foreign::GenCfg { zlib: eff2 != 0, target: rng.range(0, 300), spec: crate::foreign::Spec::DistBeforeStart, max_dist: 32768, edge: 0 };
+                    let cfg = crate::foreign::GenCfg { zlib: eff2 != 0, target: rng.range(0, 300), spec: crate::foreign::Spec::DistBeforeStart, max_dist: 32768, edge: 0, alt258: false };
                     next = crate::foreign::generate(rng, &cfg).bytes;
                     s.set("next_corrupt", 2);
                 }
